@@ -223,5 +223,9 @@ type Account struct {
 }
 
 func (c *Client) Admin(path, query string, body []byte) *Resp {
+	if c.AdminAddr != "" && c.AdminAddr != c.Addr {
+		a := &Client{Addr: c.AdminAddr, AK: c.AK, SK: c.SK, Region: c.Region, Log: c.Log, DefaultWatchdog: c.DefaultWatchdog}
+		return a.Do(&Req{Method: "PATCH", Path: path, Query: query, Body: body})
+	}
 	return c.Do(&Req{Method: "PATCH", Path: path, Query: query, Body: body})
 }
